@@ -402,7 +402,7 @@ def st_cli(files):
                                   "flags": st.sampled_from([[], [], ["-a"], ["-e"], ["-f"]])})
 
 
-def st_listing():
+def st_listing(tiles=None, min_lines=0):
     from hypothesis import strategies as st
 
     chain = st.sampled_from(["A", "B", "A-2", "AA", "x", "1"])
@@ -490,9 +490,9 @@ def st_listing():
         lines = lines * t[4]
         return {"kind": "listing", "text": sep.join(lines) + (sep if final else "")}
 
-    return st.tuples(st.lists(line(), min_size=0, max_size=12), st.sampled_from(["\n", "\n", "\r\n"]), st.booleans(),
+    return st.tuples(st.lists(line(), min_size=min_lines, max_size=12), st.sampled_from(["\n", "\n", "\r\n"]), st.booleans(),
                      st.lists(st.sampled_from([False, False, True]), min_size=12, max_size=12),
-                     st.sampled_from([1] * 13 + [30, 60, 250])).map(assemble)
+                     st.sampled_from(tiles or ([1] * 13 + [30, 60, 250]))).map(assemble)
 
 
 def classify_listing(case):
@@ -501,6 +501,8 @@ def classify_listing(case):
     n = case.get("text", "").count("\n")
     if n >= 100:
         labs.append("listing-of-100+-lines" if n < 1000 else "listing-of-1000+-lines")
+        if len(case.get("text", "")) > (1 << 20):
+            labs.append("listing-larger-than-1-MiB")
         if c["near"] + c["other"] >= 100:
             labs.append("100+-unparsable-lines-in-one-listing")
     return c["valid"] >= 1 and c["near"] >= 1 and c["other"] >= 1, labs
@@ -727,6 +729,8 @@ def plan(tier, seed):
     specs.append({"kind": "labels-short"})
     n, ex = (8, 400) if tier == "quick" else (16, 10000)
     specs += [{"kind": "listing", "examples": ex, "seed": seed * 1000 + k} for k in range(n)]
+    # listings of ribosome size: 30 000-80 000 lines, 1-4 MiB of text (buffers, size hints and block-wise reading act here)
+    specs += [{"kind": "listing", "examples": 3 if tier == "quick" else 12, "seed": seed * 1000 + 50 + k, "tiles": [3000, 7000], "min_lines": 10} for k in range(2 if tier == "quick" else 8)]
     n, ex = (8, 150) if tier == "quick" else (16, 4000)
     specs += [{"kind": "dssr", "examples": ex, "seed": seed * 1000 + 100 + k, "files": corpus.SMALL[:6]} for k in range(n)]
     n, ex = (4, 40) if tier == "quick" else (16, 1500)
@@ -826,8 +830,8 @@ def run_shard(spec) -> ShardResult:
         res.extra["labels_enumerated"] = 1 + len(SIGMA)
         res.exhaustive = True
     elif spec["kind"] == "listing":
-        run_hypothesis(PROP_ID, st_listing(), oracle, seed=spec["seed"], max_examples=spec["examples"], result=res,
-                       to_json=to_json, classify=classify_listing)
+        run_hypothesis(PROP_ID, st_listing(spec.get("tiles"), spec.get("min_lines", 0)), oracle, seed=spec["seed"], max_examples=spec["examples"], result=res,
+                       to_json=to_json, classify=classify_listing, **({"shrink": False, "sample_cap": 0} if spec.get("tiles") else {}))
         res.exhaustive = False
     elif spec["kind"] == "cli":
         run_hypothesis(PROP_ID, st_cli(spec["files"]), oracle, seed=spec["seed"], max_examples=spec["examples"], result=res,
